@@ -9,7 +9,7 @@ HERE = os.path.dirname(os.path.abspath(__file__))
 VERIF = os.path.dirname(HERE)
 sys.path.insert(0, os.path.join(VERIF, "harness"))
 sys.path.insert(0, os.path.join(VERIF, "harness", "props"))
-from framework import Scenario  # noqa: E402
+from framework import Scenario, load_known_findings  # noqa: E402
 
 bad = 0
 
@@ -23,6 +23,9 @@ for pid in sorted(os.listdir(os.path.join(VERIF, "corpus"))):
         meta = dict(payload.get("meta", {}))
         meta["corpus"] = fn
         ofs, dfs, _ = check.evaluate([Scenario(list(payload["lines"]), meta)])
+        # (failures that ARE a recorded open finding are the finding's business, not the entry's)
+        known = {k["key"] for k in load_known_findings() if k["property"] == pid}
+        ofs = [f for f in ofs if f.site not in known]
         if ofs or dfs:
             what = (ofs + dfs)[0]
             bad += 1
